@@ -147,7 +147,7 @@ def canon(n, env):
             if k in ("decl",):
                 if isinstance(v, str):
                     v = env.setdefault(v, "decl%d" % len(env))  # identity by order of first appearance (USRs of locals embed file offsets)
-            if k == "fn":
+            if k in ("fn", "insts"):
                 continue  # USRs embed the file name for anonymous-namespace types and closures; 'sig'/'callee' carry the resolved name
             out.append((k, canon(v, env)))
         return tuple(out)
